@@ -567,6 +567,11 @@ class Act:
             x0 = self.checkpoint.x
         else:
             x0 = np.array(p.x0, copy=True)
+            if c.get("x0_dtype") == "float32":
+                # a caller handing single-precision data (kept only if it stays inside the box)
+                x32 = x0.astype(np.float32)
+                if (x32 >= p.lb).all() and (x32 <= p.ub).all():
+                    x0 = x32
         bounds = None if p.bounds is None else np.array(p.bounds, copy=True)
         if bounds is not None and c.get("bounds_style") == "list_none":
             # old-style sequence of (min, max) pairs with None for "no bound"
